@@ -3,7 +3,7 @@ NEXT NextP
 VIEW View
 CONSTANTS
   NT = 3
-  MaxDepth = 2
+  MaxDepth = 3
   MaxCtx = 3
 INVARIANT MonOk
 INVARIANT StackDiscipline
